@@ -46,7 +46,7 @@ def mk_env(rng):
     env["flags"] = rng.weighted([([], 12), (["--profile"], 2), (["--no-pb"], 2), (["-X", "8388608"], 2), (["--verbose"], 1)])
     if "--verbose" in env["flags"]:
         env["streams"] = "pipes"      # log records go to stdout; they are filtered out of it, which needs the streams apart
-    env["vars"] = rng.weighted([({}, 6), ({"RUST_BACKTRACE": "1"}, 1), ({"RUST_BACKTRACE": "full"}, 1), ({"CLICOLOR_FORCE": "1"}, 1), ({"SIMWORLD_CLOCK": "freeze"}, 1)])
+    env["vars"] = rng.weighted([({}, 6), ({"RUST_BACKTRACE": "1"}, 1), ({"RUST_BACKTRACE": "full"}, 1), ({"CLICOLOR_FORCE": "1"}, 1), ({"SIMWORLD_CLOCK": "tick"}, 1)])
     # the command is started in a directory that has been removed since; the entry file is named absolutely
     if rng.chance(1, 10):
         env["start"] = "gone"
